@@ -58,6 +58,10 @@ package json
 // c10_due: ghost, a member whose path matched a value-less query has been consumed completely
 //@ ghostvar c10_due bool
 //@ ghostvar c10_dueval bool
+// c10_hit: ghost, monotone: some completely consumed member matched a query (path equal to the
+// query's search path and, for valued queries, trimmed value equal to one of the search values).
+// querySatisfied is proved to be set only when c10_hit is (or when there are no queries).
+//@ ghostvar c10_hit bool
 
 //@ pool parserPool invariant p.maxRecursion == maxRecursion
 
@@ -125,6 +129,9 @@ package json
 //@   loop 3 decreases len(b)
 
 //@ func json.(*parserState).consumeArray
+//@   ensures [C10_only] p.querySatisfied ==> old(p.querySatisfied) || len(qs) == 0 || c10_hit
+//@   ensures [C10_hit_mono] old(c10_hit) ==> c10_hit
+//@   loop 1 invariant [C10_only_inv] (p.querySatisfied ==> old(p.querySatisfied) || len(qs) == 0 || c10_hit) && (old(c10_hit) ==> c10_hit)
 //@   ensures [C10_mono] old(p.querySatisfied) ==> p.querySatisfied
 //@   requires [C08_depth] lvl == jdepth + 1
 //@   ghost entry: jdepth = jdepth + 1
@@ -133,7 +140,7 @@ package json
 //@   requires ibOK(p, b)
 //@   requires [C16_cap] capOK(p)
 //@   requires [C16_lvl] 1 <= lvl && lvl <= p.maxRecursion + 1
-//@   assigns p.ib, p.currPath, p.firstToken, p.querySatisfied, ghost(jdepth)
+//@   assigns p.ib, p.currPath, p.firstToken, p.querySatisfied, ghost(jdepth), ghost(c10_hit)
 //@   ensures 0 <= n && n <= len(b)
 //@   ensures [C08C09_J2] old(p.ib) <= p.ib && p.ib <= old(p.ib) + len(b)
 //@   ensures [C08_J1] n > 0 ==> p.ib == old(p.ib) + n
@@ -152,6 +159,11 @@ package json
 //@   loop 1 decreases len(b) - n
 
 //@ func json.(*parserState).consumeObject
+//@   ghost after consumeValue: c10_hit = c10_hit || ($ret1 && queryMatched != -1 && (len(qs[queryMatched].SearchVals) == 0 || (exists v :: 0 <= v && v < len(qs[queryMatched].SearchVals) && qs[queryMatched].SearchVals[v] == trimSpace(b[n:n+$ret0]))))
+//@   ensures [C10_only] p.querySatisfied ==> old(p.querySatisfied) || len(qs) == 0 || c10_hit
+//@   ensures [C10_hit_mono] old(c10_hit) ==> c10_hit
+//@   loop 1 invariant [C10_only_inv] (p.querySatisfied ==> old(p.querySatisfied) || len(qs) == 0 || c10_hit) && (old(c10_hit) ==> c10_hit)
+//@   loop 2 invariant [C10_only_inv2] (p.querySatisfied ==> old(p.querySatisfied) || len(qs) == 0 || c10_hit || (exists v :: 0 <= v && v <= rangeindex && q.SearchVals[v] == trimSpace(b[n:n+valLen]))) && (old(c10_hit) ==> c10_hit)
 //@   ghost entry: c10_due = false
 //@   ghost after consumeValue: c10_due = c10_due || ($ret1 && queryMatched != -1 && len(qs[queryMatched].SearchVals) == 0)
 //@   ensures [C10_decided] c10_due ==> p.querySatisfied
@@ -168,7 +180,7 @@ package json
 //@   requires ibOK(p, b)
 //@   requires [C16_cap] capOK(p)
 //@   requires [C16_lvl] 1 <= lvl && lvl <= p.maxRecursion + 1
-//@   assigns p.ib, p.currPath, p.firstToken, p.querySatisfied, ghost(jdepth)
+//@   assigns p.ib, p.currPath, p.firstToken, p.querySatisfied, ghost(jdepth), ghost(c10_hit)
 //@   ensures 0 <= n && n <= len(b)
 //@   ensures [C08C09_J2] old(p.ib) <= p.ib && p.ib <= old(p.ib) + len(b)
 //@   ensures [C08_J1] n > 0 ==> p.ib == old(p.ib) + n
@@ -190,6 +202,8 @@ package json
 //@   loop 2 invariant [C10_dueval_inv3] c10_dueval ==> p.querySatisfied || (exists v :: 0 <= v && v < len(q.SearchVals) && q.SearchVals[v] == trimSpace(b[n:n+valLen]))
 
 //@ func json.(*parserState).consumeValue
+//@   ensures [C10_only] p.querySatisfied ==> old(p.querySatisfied) || len(qs) == 0 || c10_hit
+//@   ensures [C10_hit_mono] old(c10_hit) ==> c10_hit
 //@   ensures [C10_mono] old(p.querySatisfied) ==> p.querySatisfied
 //@   requires [C08_depth] lvl == jdepth
 //@   ensures [C08_depth_restored] jdepth == old(jdepth)
@@ -197,7 +211,7 @@ package json
 //@   requires [C04_reset] lvl == 0 ==> p.ib == 0 && len(p.currPath) == 0 && p.firstToken == TokInvalid && !p.querySatisfied
 //@   requires [C16_cap] capOK(p)
 //@   requires [C16_lvl] 0 <= lvl && lvl <= p.maxRecursion + 8
-//@   assigns p.ib, p.currPath, p.firstToken, p.querySatisfied, ghost(jdepth)
+//@   assigns p.ib, p.currPath, p.firstToken, p.querySatisfied, ghost(jdepth), ghost(c10_hit)
 //@   ensures 0 <= n && n <= len(b)
 //@   ensures ok ==> n > 0
 //@   ensures [C08_G_tok] ite(lvl == 0 && wsLen(b) < len(b), p.firstToken == tokOf(b[wsLen(b)]), p.firstToken == old(p.firstToken))
@@ -216,7 +230,7 @@ package json
 //@   requires [C04_reset] lvl == 0 ==> p.ib == 0 && len(p.currPath) == 0 && p.firstToken == TokInvalid && !p.querySatisfied
 //@   requires [C16_cap] capOK(p)
 //@   requires [C16_lvl] 0 <= lvl && lvl <= p.maxRecursion + 8
-//@   assigns p.ib, p.currPath, p.firstToken, p.querySatisfied, ghost(jdepth)
+//@   assigns p.ib, p.currPath, p.firstToken, p.querySatisfied, ghost(jdepth), ghost(c10_hit)
 //@   ensures 0 <= n && n <= len(b)
 
 //@ func json.Parse$1
